@@ -69,6 +69,18 @@ def one(mon: Monitor, rng: random.Random) -> None:
     shape = ((2,) + (H, W)) if tax else (H, W)
     base = (np.arange(H * W).reshape(H, W) % 97 + 1)
     data = (np.stack([base, base[::-1, ::-1] % 89 + 1]) if tax else base).astype(dtype)
+    nd_kind = "none"
+    if nodata is not None and rng.random() < 0.55:
+        # real scenes have empty corners and fully masked time slices: whole source windows of nothing but nodata
+        nd_kind = rng.choice(["patches", "patches", "half", "plane"] if tax else ["patches", "patches", "half"])
+        if nd_kind == "plane":
+            data[1] = nodata
+        elif nd_kind == "half":
+            (data[..., :, : W // 2] if rng.random() < 0.5 else data[..., H // 2:, :]).fill(nodata)
+        else:
+            for _ in range(rng.randint(1, 3)):
+                y0_, x0_ = rng.randint(0, H - 1), rng.randint(0, W - 1)
+                data[..., y0_: y0_ + rng.choice([1, 3, 8, H]), x0_: x0_ + rng.choice([1, 4, 9, W])] = nodata
     t = ["2020-01-01", "2020-01-02"] if tax else None
     sch = (rng.choice([1, 3, 7, 16, 64]), rng.choice([1, 4, 9, 64]))
     dch = (rng.choice([1, 5, 8, 64]), rng.choice([2, 6, 64]))
@@ -81,7 +93,7 @@ def one(mon: Monitor, rng: random.Random) -> None:
     resampling = rng.choice(["nearest", "nearest", "bilinear"])
     sched_ = rng.choice(["sync", "sync", "threads"])
     oseed = rng.randint(0, 10**6)
-    cfg = {"src": gen.gbox_desc(src), "dst": gen.gbox_desc(dst), "kind": kind, "dtype": dtype, "nodata": nodata, "dst_nodata": dst_nodata, "time_axis": tax, "src_chunks": sch, "dst_chunks": dch, "resampling": resampling,
+    cfg = {"src": gen.gbox_desc(src), "dst": gen.gbox_desc(dst), "kind": kind, "dtype": dtype, "nodata": nodata, "nodata_in_data": nd_kind, "dst_nodata": dst_nodata, "time_axis": tax, "src_chunks": sch, "dst_chunks": dch, "resampling": resampling,
            "scheduler": sched_, "order_seed": oseed}
     xx = wrap_xr(data, src, nodata=nodata, time=t) if tax else wrap_xr(data, src, nodata=nodata)
     dd = da.from_array(data, chunks=((1,) + sch) if tax else sch)
@@ -178,6 +190,22 @@ def one(mon: Monitor, rng: random.Random) -> None:
         di = np.array([min(i % dch[0], min(dch[0], ny - (i // dch[0]) * dch[0]) - 1 - i % dch[0]) for i in range(ny)])[:, None]
         dj = np.array([min(j % dch[1], min(dch[1], nx - (j // dch[1]) * dch[1]) - 1 - j % dch[1]) for j in range(nx)])[None, :]
         deep = deep & (np.minimum(di, dj) >= margin)
+    if nd_kind != "none":
+        # near the border of a nodata area the answer depends on sub-pixel details of GDAL's (piecewise approximated) coordinate transform: judge only destination
+        # pixels whose source neighbourhood (5 x 5) is all valid or all nodata, in every plane
+        Mnd = (data == nodata)
+        Mnd = Mnd.reshape((-1, H, W))
+        anyv, allv = Mnd.any(axis=0), Mnd.all(axis=0)
+        pad_any, pad_all = np.pad(anyv, 2, mode="edge"), np.pad(allv, 2, mode="edge")
+        near_any = np.zeros((H, W), bool)
+        near_notall = np.zeros((H, W), bool)
+        for dy_ in range(5):
+            for dx_ in range(5):
+                near_any |= pad_any[dy_: dy_ + H, dx_: dx_ + W]
+                near_notall |= ~pad_all[dy_: dy_ + H, dx_: dx_ + W]
+        pure = ~near_any | ~near_notall  # no nodata anywhere near, or nothing but nodata near (in all planes)
+        iy_, ix_ = np.clip(np.floor(np.where(fin, py, 0)).astype(int), 0, H - 1), np.clip(np.floor(np.where(fin, px, 0)).astype(int), 0, W - 1)
+        deep = deep & pure[iy_, ix_]
     if deep.any():
         md = np.broadcast_to(deep, a.shape)
         fa, fb = isfill(a[md]), isfill(b[md])
